@@ -325,10 +325,16 @@ def run_check(prop_factory, tier):
 
     obligations = len(thms)
     discharged = len([t for t in thms if t["ok"]])
+    native_thms = [t for t in thms if any("native_decide" in a or a in ("Lean.ofReduceBool", "Lean.trustCompiler") for a in t["axioms"])]
     cov = {
         "obligations": obligations, "discharged": discharged,
         "checker_cmd": f"cd lean && lake build CardVerif && lake env lean CardVerif/Audit/{pid}.lean",
-        "trusted_base": ["Lean 4.33 kernel", "axioms: propext, Classical.choice, Quot.sound (audited per theorem each run)",
+        "trusted_base": ["Lean 4.33 kernel",
+                         ("axioms: propext, Classical.choice, Quot.sound (audited per theorem each run)" if not native_thms else
+                          f"axioms: propext, Classical.choice, Quot.sound for {len(thms) - len(native_thms)} of the {len(thms)} theorems; "
+                          f"{', '.join(t['name'].split('.')[-1] for t in native_thms)} additionally depend on "
+                          f"{max(len([a for a in t['axioms'] if 'native_decide' in a]) for t in native_thms)} `native_decide` axioms "
+                          "(compiled evaluation of finite tables: trusts the Lean compiler and the native code of CardModel)"),
                          "hand-written Lean model tied to /repo by the differential correspondence run below",
                          *prop.trusted_base],
         "theorems": thms,
